@@ -317,11 +317,6 @@ class Fidelity(Obligation):
         if self.template == "allof_cycle":
             return "allof-parent-refers-to-child"
         names = self._names(inp)
-        san = (_I() if any(is_sym(x) for x in names) else _R()).core.utils.NameSanitizer.sanitize_class_name
-        for x in names:
-            sx = san(x)
-            if not _eqs(x, sx):
-                return "non-class-style-name-on-cycle"
         for i, a in enumerate(names):
             for j, b in enumerate(names):
                 if i != j and len(a) < len(b) and bool(b.startswith(a)):
